@@ -79,6 +79,13 @@ static inline _Bool vstr_in_set_(const char *set, char c) {
  * "for all i" states its guarantee at this one arbitrary index instead. */
 extern size_t verif_ghost_idx, verif_ghost_idx2, verif_ghost_idx3, verif_ghost_idx4;
 extern int verif_ghost_int, verif_ghost_int2;
+/* std::string::substr(pos, n) throws std::out_of_range -- not the library's exception -- when pos > size() */
+static inline void vstr_substr_check(const vstr *s, size_t pos) {
+  __CPROVER_assert(pos <= (size_t)s->len, "std::string::substr position <= size() (else std::out_of_range)");
+}
+/* istringstream >> real on a string of digits and at most one point: some non-negative number (TRUSTED: value not modelled) */
+static inline double verif_parse_real(void) { double v = nondet_double(); __CPROVER_assume(v >= 0 && v <= 1e40); return v; }
+
 /* std::string::find_first_not_of(const char* set, size_t pos): exact (loop bounded by the capacity) */
 static inline size_t vstr_find_first_not_of(const vstr *s, const char *set, size_t pos) {
   for (size_t i_ = pos; i_ < (size_t)s->len; ++i_)
